@@ -134,6 +134,49 @@ def rand_annotation(rng, scale=1.0, max_genes=3):
     return isoforms
 
 
+def big_annotation(rng):
+    """one gene whose cluster has >= 128 distinct annotated introns (big genes such as TTN / NEB: seed C01_a4 - code that
+    treats long feature lists differently from short ones): a base chain of 130..170 exons and its `variants`"""
+    n = rng.randint(130, 170)
+    base = _chain(rng, rng.randint(500, 3000), n, (60, 300), (90, 1500))
+    strand = rng.choice("+-")
+    isoforms = []
+    seen = set()
+    for ex in [base] + variants(rng, base, 1.0)[:3]:
+        key = tuple(ex)
+        if key in seen or not valid_blocks(ex):
+            continue
+        seen.add(key)
+        isoforms.append({"gene": "g0", "strand": strand, "exons": [tuple(e) for e in ex]})
+    for i, t in enumerate(isoforms):
+        t["id"] = "t%04d" % i
+    return isoforms
+
+
+def intron_start_read(rng, exons):
+    """a read that STARTS inside an annotated intron (20..300 retained bases in front of an internal exon, no junction
+    upstream) and then follows the isoform for 0..3 exons, or the mirror image (ends inside an intron)"""
+    n = len(exons)
+    if n < 4:
+        return None
+    i = rng.randint(1, n - 3)
+    j = min(n - 2, i + rng.randint(0, 3))
+    blocks = [tuple(e) for e in exons[i:j + 1]]
+    if rng.random() < 0.7:
+        gap = exons[i][0] - exons[i - 1][1] - 1
+        ret = min(rng.choice([20, 25, 60, 300]), gap - 3)
+        if ret < 1:
+            return None
+        blocks[0] = (blocks[0][0] - ret, blocks[0][1])
+    else:
+        gap = exons[j + 1][0] - exons[j][1] - 1
+        ret = min(rng.choice([20, 25, 60, 300]), gap - 3)
+        if ret < 1:
+            return None
+        blocks[-1] = (blocks[-1][0], blocks[-1][1] + ret)
+    return blocks
+
+
 def introns_of(exons):
     return [(exons[i][1] + 1, exons[i + 1][0] - 1) for i in range(len(exons) - 1) if exons[i][1] + 1 < exons[i + 1][0]]
 
